@@ -27,9 +27,9 @@ def op_gen(P, I, ctx, subj, op, env):
     """one program operation as a generator; returns a dict describing what happened"""
     kind = op[0]
     if kind == 'call':
-        ne = len(ctx.events)
+        ne = len(ctx.events); t_start = ctx.steps
         r = yield from call_subject_gen(I, ctx, subj, op[1])
-        return dict(op='call', args=op[1], ret=r, execs=[e for e in ctx.events[ne:] if e[0] == 'exec' and e[1] == ctx.tid])
+        return dict(op='call', args=op[1], ret=r, execs=[e for e in ctx.events[ne:] if e[0] == 'exec' and e[1] == ctx.tid], t_start=t_start, t_end=ctx.steps)
     name = subj.rec['intended']['cache_name']
     if kind == 'inv_with':
         f = P.resolve('invalidation::invalidate_with')
@@ -141,7 +141,13 @@ def run(P, item):
                         v = model.eval(t, model_completion=True)
                         return v.as_long() if z3.is_int_value(v) else (True if z3.is_true(v) else False if z3.is_false(v) else str(v))
                     locks = [e for e in ctx.events[stash['nlock0']:] if e[0] in ('lock', 'unlock')]
-                    w = dict(subject=name, progs=progs_spec, nfill=nfill, deadlock=str(o.res), sched=list(ctx.sched_trace), locks=[[str(x) for x in e] for e in locks],
+                    ttl_ = wrap.subjects()[name]['intended']['ttl']; sleep_ms = 0
+                    if ttl_:
+                        A_ = wrap.subjects()[name]['flavour'] == 'A'; clk = ctx.sys_vars if A_ else ctx.now_vars
+                        if len(clk) >= 2:
+                            span = ev(clk[-1]) - ev(clk[0])
+                            if isinstance(span, int) and span >= (ttl_ if A_ else ttl_ * 1000000000): sleep_ms = min(ttl_, 5) * 1000 + 150
+                    w = dict(sleep_ms=sleep_ms, subject=name, progs=progs_spec, nfill=nfill, deadlock=str(o.res), sched=list(ctx.sched_trace), locks=[[str(x) for x in e] for e in locks],
                              fills=[[ev(x) for x in t] for t in stash['fills']], fresh=[[ev(x) for x in v] for k, v in stash['fresh']], fresh_keys=[list(k) for k, v in stash['fresh']],
                              pred=[(cn, render_key(k, ev), ev(b)) for cn, k, b in stash['env']['pred'].memo])
                 if 'C17' in props: res['failed'].append(dict(prop='C17', clause='no interleaving leaves every unfinished caller blocked', kind='conc', msg=str(o.res), cfg=f"CONC/{name}", op=_progs_str(progs_spec), witness=w))
@@ -178,6 +184,21 @@ def oracle(item, d, claims, classes, ctx):
             want = F(*r['args']) if r['args'] else F(z3.IntVal(0))
             add('C18', 'every concurrent call returns the function\'s value for its own arguments', simp(r['ret'] == want) if not isinstance(r['ret'], Agg) else True)
             add('C03', 'a concurrent call runs the body at most once', len(r['execs']) <= 1)
+        # a call that starts after ANY call with the same arguments has executed, stored and returned is served from the cache
+        if not (it['result'] or it['invalidate_on'] or it['cache_if'] or it['ttl'] or it['max_memory']):
+            allcalls = [r2 for rs2 in d['rs'] for r2 in rs2 if r2['op'] == 'call']
+            for r in rs:
+                if r['op'] != 'call': continue
+                if any(r2 is not r and r2['args'] is r['args'] and r2['t_end'] <= r['t_start'] for r2 in allcalls):
+                    add('C03', 'once any call that stored the result has returned, a call that starts later with the same arguments never runs the body', len(r['execs']) == 0)
+        # a call that starts after a call of the same thread with the same arguments has stored and returned is served from the cache
+        if not (it['result'] or it['invalidate_on'] or it['cache_if'] or it['ttl'] or it['max_memory']):
+            seen = []
+            for r in rs:
+                if r['op'] != 'call': continue
+                if any(a is r['args'] for a in seen):
+                    add('C03', 'once a call that stored the result has returned, a later call with the same arguments never runs the body again', len(r['execs']) == 0)
+                seen.append(r['args'])
     # consistency at quiescence
     def tracked(keys, queue):
         return b_and(*[b_or(*[simp(str_eq(k, q)) for q in queue]) if queue else False for k in keys]) if keys else True
@@ -214,7 +235,7 @@ def conc_witness(ctx, model, item, d):
         if len(clk) >= 2:
             span = ev(clk[-1]) - ev(clk[0])
             if isinstance(span, int) and span >= (ttl if A else ttl * 1000000000): sleep_ms = min(ttl, 5) * 1000 + 150
-    return dict(sleep_ms=sleep_ms, subject=item['subject'], progs=item['progs'], nfill=item.get('nfill', 0), fills=[[ev(x) for x in t] for t in d['fills']], fresh=[[ev(x) for x in v] for k, v in d['fresh']],
+    return dict(execs_conc=sum(len(r['execs']) for rs in d['rs'] for r in rs if r['op'] == 'call'), sleep_ms=sleep_ms, subject=item['subject'], progs=item['progs'], nfill=item.get('nfill', 0), fills=[[ev(x) for x in t] for t in d['fills']], fresh=[[ev(x) for x in v] for k, v in d['fresh']],
                 fresh_keys=[list(k) for k, v in d['fresh']], pred=[(cn, render_key(k, ev), ev(b)) for cn, k, b in d['env']['pred'].memo], sched=d['sched'],
                 locks=[[str(x) for x in e] for e in d['locks']], keys=[render_key(k, ev) for k in d['snap']['keys']], queue=[render_key(k, ev) for k in d['snap']['queue']],
                 keys2=[render_key(k, ev) for k in d['snap'].get('keys2', [])], nlookups=d.get('nlookups'), stats_delta=(ev((d['stats1'][0] + d['stats1'][1]) - (d['stats0'][0] + d['stats0'][1])) if d.get('stats0') is not None and d.get('stats1') is not None else None), probe=[ev(x) for x in d['probe'][0]['args']] if d['probe'] else None)
